@@ -1,5 +1,5 @@
 // Harness for C03: drives the REAL graphql/executor (directly, the way a transport does, and through
-// handler.Server + transport.POST) with instrumented extensions of every hook-kind subset, a universal
+// handler.Server + every transport of graphql/handler/transport, see transports.go) with instrumented extensions of every hook-kind subset, a universal
 // hand-built ExecutableSchema and a logging wrapper around the real query caches, and prints per
 // request the protocol line for the Lean driver together with what was observed (accept/reject,
 // answers, ordered event log). Query texts are classified by an oracle that calls gqlparser directly
@@ -13,12 +13,11 @@ package main
 
 import (
 	"bufio"
-	"bytes"
 	"context"
 	"encoding/json"
 	"flag"
 	"fmt"
-	"net/http/httptest"
+	"net/http"
 	"os"
 	"sort"
 	"strconv"
@@ -37,7 +36,6 @@ import (
 	"github.com/99designs/gqlgen/graphql/executor"
 	"github.com/99designs/gqlgen/graphql/handler"
 	"github.com/99designs/gqlgen/graphql/handler/lru"
-	"github.com/99designs/gqlgen/graphql/handler/transport"
 	"verifharness/internal/rng"
 )
 
@@ -72,6 +70,12 @@ type reqLog struct {
 	addInvalid bool
 }
 
+func (rl *reqLog) events() []string {
+	rl.mu.Lock()
+	defer rl.mu.Unlock()
+	return append([]string(nil), rl.ev...)
+}
+
 func lg(ctx context.Context, f string, a ...any) {
 	rl, _ := ctx.Value(logKey{}).(*reqLog)
 	if rl == nil {
@@ -96,6 +100,17 @@ type tags struct {
 	Blk   []int             `json:"blk,omitempty"`
 	XErr  bool              `json:"xerr,omitempty"`
 	Emit  int               `json:"emit"`
+}
+
+// tagsOf: the request's tags travel in `extensions.c03`; transports that carry the query text only
+// (application/graphql) put them into the X-C03 header instead
+func tagsOf(ext map[string]any, h http.Header) *tags {
+	if _, ok := ext["c03"]; !ok && h != nil && h.Get("X-C03") != "" {
+		t := &tags{}
+		_ = json.Unmarshal([]byte(h.Get("X-C03")), t)
+		return t
+	}
+	return getTags(ext)
 }
 
 func getTags(ext map[string]any) *tags {
@@ -136,7 +151,7 @@ func coded(msg, code string) *gqlerror.Error {
 
 func (b *base) mutateParams(ctx context.Context, p *graphql.RawParams) *gqlerror.Error {
 	lg(ctx, "pm%d", b.id)
-	t := getTags(p.Extensions)
+	t := tagsOf(p.Extensions, p.Headers)
 	if has(t.PmRej, b.id) {
 		return coded("rejected by parameter mutator", fmt.Sprintf("C03_PM%d", b.id))
 	}
@@ -148,7 +163,7 @@ func (b *base) mutateParams(ctx context.Context, p *graphql.RawParams) *gqlerror
 
 func (b *base) mutateContext(ctx context.Context, oc *graphql.OperationContext) *gqlerror.Error {
 	lg(ctx, "cm%d", b.id)
-	if has(getTags(oc.Extensions).CmRej, b.id) {
+	if has(tagsOf(oc.Extensions, oc.Headers).CmRej, b.id) {
 		return coded("rejected by context mutator", fmt.Sprintf("C03_CM%d", b.id))
 	}
 	return nil
@@ -156,7 +171,7 @@ func (b *base) mutateContext(ctx context.Context, oc *graphql.OperationContext) 
 
 func (b *base) interceptOperation(ctx context.Context, next graphql.OperationHandler) graphql.ResponseHandler {
 	lg(ctx, "O+%d", b.id)
-	if has(getTags(graphql.GetOperationContext(ctx).Extensions).Blk, b.id) {
+	if oc := graphql.GetOperationContext(ctx); has(tagsOf(oc.Extensions, oc.Headers).Blk, b.id) {
 		lg(ctx, "O-%d", b.id)
 		return graphql.OneShot(&graphql.Response{Errors: gqlerror.List{coded("blocked", fmt.Sprintf("C03_BLK%d", b.id))}})
 	}
@@ -216,7 +231,7 @@ var es = &graphql.ExecutableSchemaMock{
 	ExecFunc: func(ctx context.Context) graphql.ResponseHandler {
 		lg(ctx, "X")
 		oc := graphql.GetOperationContext(ctx)
-		t := getTags(oc.Extensions)
+		t := tagsOf(oc.Extensions, oc.Headers)
 		if t.XErr {
 			graphql.AddError(ctx, coded("exec set-up failed", "C03_EXEC"))
 			return graphql.OneShot(&graphql.Response{})
@@ -453,7 +468,7 @@ type session struct {
 	cache   string
 	disable bool
 	exts    []extSpec
-	server  bool // through handler.Server + transport.POST instead of calling the executor directly
+	server  bool // through handler.Server + one of its transports (request.via) instead of calling the executor directly
 
 	exec *executor.Executor
 	srv  *handler.Server
@@ -491,7 +506,9 @@ func newCache(kind string) graphql.Cache[*ast.QueryDocument] {
 func (s *session) build() {
 	if s.server {
 		s.srv = handler.New(es)
-		s.srv.AddTransport(transport.POST{})
+		addTransports(s.srv)
+		// like DefaultRecover without printing the stack
+		s.srv.SetRecoverFunc(func(ctx context.Context, err any) error { return gqlerror.Errorf("internal system error") })
 		s.srv.SetQueryCache(newCache(s.cache))
 		s.srv.SetDisableSuggestion(s.disable)
 		for _, e := range s.exts {
@@ -519,6 +536,7 @@ type request struct {
 	emit   int
 	polls  int
 	class_ string // generator class, for the input distribution
+	via    string // server sessions: the transport that carries the request (transports.go: vias)
 }
 
 func ints(l []int) string {
@@ -644,35 +662,17 @@ func (s *session) do(r *request) (acc string, resps string, log string, flags st
 	var rs []string
 	defer func() {
 		if p := recover(); p != nil {
-			acc, resps, log, flags = "panic", "-", strings.Join(rl.ev, ","), fmt.Sprint(p)
+			acc, resps, log, flags = "panic", "-", strings.Join(rl.events(), ","), fmt.Sprint(p)
 		}
 	}()
+	var tflag string
 	if s.server {
-		body := map[string]any{"query": r.text, "extensions": map[string]any{"c03": r.tags()}}
-		if r.op != "" {
-			body["operationName"] = r.op
+		if r.via == "" {
+			r.via = "post"
 		}
-		if r.vars != "" {
-			body["variables"] = json.RawMessage(r.vars)
-		}
-		b, _ := json.Marshal(body)
-		req := httptest.NewRequest("POST", "/query", bytes.NewReader(b)).WithContext(ctx)
-		req.Header.Set("Content-Type", "application/json")
-		w := httptest.NewRecorder()
-		s.srv.ServeHTTP(w, req)
-		var resp graphql.Response
-		if err := json.Unmarshal(w.Body.Bytes(), &resp); err != nil {
-			return "baddoc", w.Body.String(), strings.Join(rl.ev, ","), "http"
-		}
-		if strings.TrimSpace(w.Body.String()) == "null" {
-			rs = append(rs, "nil") // the handler answered nil: transport.POST writes the JSON text null
-		} else {
-			rs = append(rs, showResp(&resp))
-		}
-		// accepted? : what CreateOperationContext decided is visible as "some event after the gates"
-		acc = "rej"
-		if c := codeOf(resp.Errors); c == "-" || c == "X" || strings.HasPrefix(c, "blk") {
-			acc = "ok"
+		acc, rs, tflag = s.doVia(r, ctx, rl)
+		if acc == "baddoc" {
+			return acc, strings.ReplaceAll(strings.Join(rs, ";"), " ", "_"), strings.Join(rl.events(), ","), tflag
 		}
 	} else {
 		ctx = graphql.StartOperationTrace(ctx)
@@ -695,14 +695,17 @@ func (s *session) do(r *request) (acc string, resps string, log string, flags st
 		}
 	}
 	log = "-"
-	if len(rl.ev) > 0 {
-		log = strings.Join(rl.ev, ",")
+	if ev := rl.events(); len(ev) > 0 {
+		log = strings.Join(ev, ",")
 	}
 	resps = "-"
 	if len(rs) > 0 {
 		resps = strings.Join(rs, ";")
 	}
 	flags = "-"
+	if tflag != "" {
+		flags = tflag
+	}
 	if rl.addInvalid {
 		flags = "cache-add-of-unvalidated-document"
 	}
@@ -889,21 +892,40 @@ func genRequest(r *rng.R, s *session, pool []genq) *request {
 	q.emit = r.Below(4)
 	if !s.server {
 		q.polls = 1 + r.Below(5)
+	} else {
+		q.setVia(s, pick(r, vias))
 	}
 	return q
+}
+
+// setVia: the transport of a server-session request (post when `want` cannot carry it); streaming
+// transports call the handler until it answers nil
+func (q *request) setVia(s *session, want string) {
+	q.via = s.pickVia(q, want)
+	q.polls = 1
+	if streaming(q.via) {
+		q.polls = 5
+	}
 }
 
 func runSession(s *session, reqs []*request) {
 	s.build()
 	route := "direct"
 	if s.server {
-		route = "post"
+		route = "server"
 	}
 	fmt.Fprintf(out, "S\t%s\t%s\n", s.line(), route)
 	for _, q := range reqs {
+		if s.server && q.via == "" {
+			q.setVia(s, "post")
+		}
 		line := s.reqLine(q)
 		acc, resps, log, flags := s.do(q)
-		fmt.Fprintf(out, "R\t%s\t%s %s %s\t%s\t%s\t%s\n", line, acc, resps, log, flags, q.class_, strconv.Quote(q.text))
+		via := q.via
+		if !s.server {
+			via = "direct"
+		}
+		fmt.Fprintf(out, "R\t%s\t%s %s %s\t%s\t%s\t%s\t%s\n", line, acc, resps, log, flags, q.class_, strconv.Quote(q.text), via)
 	}
 }
 
@@ -949,6 +971,49 @@ func directed() {
 				}
 				runSession(s, reqs)
 			}
+		}
+	}
+	// every transport x the gates: each kind of rejection (parse, validation, selection, variables, parameter /
+	// context mutator with a protocol-kind and with a user-kind error code), blocking, Exec errors, subscriptions
+	sub := "subscription { tick { id v } }"
+	for _, via := range vias {
+		for _, cache := range []string{"none", "lru2"} {
+			s := &session{cache: cache, exts: all, server: true}
+			mk := func(q request) *request {
+				q.emit, q.polls = 1, 1
+				if strings.HasPrefix(q.text, "subscription") {
+					q.emit = 2
+				}
+				q.class_ = "t-" + q.class_
+				(&q).setVia(s, via)
+				return &q
+			}
+			runSession(s, []*request{
+				mk(request{text: valid, class_: "valid"}),
+				mk(request{text: valid, cmrej: []int{0}, class_: "cm-reject-protocol-kind"}),
+				mk(request{text: valid, cmrej: []int{1}, class_: "cm-reject-user-kind"}),
+				mk(request{text: valid, cmrej: []int{2, 1}, class_: "cm-reject-user-kind-two"}),
+				mk(request{text: valid, pmrej: []int{0}, class_: "pm-reject-protocol-kind"}),
+				mk(request{text: valid, pmrej: []int{1}, class_: "pm-reject-user-kind"}),
+				mk(request{text: valid, class_: "valid-after-rejections"}),
+				mk(request{text: "{ nam }", class_: "unknown-near"}),
+				mk(request{text: "{ a", class_: "parse"}),
+				mk(request{text: two, op: "C", class_: "two-unknown"}),
+				mk(request{text: two, op: "B", class_: "two-B"}),
+				mk(request{text: "query V($x: Int!) { b(x: $x) { id } }", vars: `{}`, class_: "vars-missing"}),
+				mk(request{text: "query V($x: Int!) { b(x: $x) { id } }", vars: `{"x": 4}`, class_: "vars-ok"}),
+				mk(request{text: valid, blk: []int{1}, class_: "op-block"}),
+				mk(request{text: valid, xerr: true, class_: "exec-error"}),
+				mk(request{text: "{ a", pmrw: map[int]string{1: valid}, class_: "rewrite-to-valid"}),
+				mk(request{text: valid, pmrw: map[int]string{0: "{ nope }"}, class_: "rewrite-to-invalid"}),
+				mk(request{text: "mutation { m1: bump m2: set(x: 3) { id v } }", class_: "mutation"}),
+				mk(request{text: "mutation { m1: bump }", cmrej: []int{2}, class_: "mutation-cm-reject-user-kind"}),
+				mk(request{text: sub, class_: "sub-2"}),
+				mk(request{text: sub, cmrej: []int{1}, class_: "sub-cm-reject-user-kind"}),
+				mk(request{text: sub, pmrej: []int{2}, class_: "sub-pm-reject-user-kind"}),
+				mk(request{text: sub, cmrej: []int{0}, class_: "sub-cm-reject-protocol-kind"}),
+				mk(request{text: "", class_: "empty"}),
+			})
 		}
 	}
 	// registration order and hook subsets
@@ -1057,23 +1122,41 @@ func conc(seed uint64, disable bool, workers, perWorker int) {
 }
 
 // window: F03's semantic window. Every try starts from the initial rule list, then `workers` goroutines
-// send their first request at once to an executor with SetDisableSuggestion(true); half of them send a
-// document with an unknown field. Such a request being accepted means Validate ran without any
-// field-existence rule.
+// send their first requests at once; half of them send a document with an unknown field. Such a request
+// being accepted means Validate ran without any field-existence rule. The executors of the process are a
+// configuration dimension (gqlparser's rule list is global to the process):
+//
+//	try%3 == 0  one executor with SetDisableSuggestion(true), all workers on it
+//	try%3 == 1  executor A with SetDisableSuggestion(true) gets the valid documents (its first uncached
+//	            requests swap the rule), executor B with suggestions ON gets the invalid ones, repeatedly
+//	try%3 == 2  two executors with SetDisableSuggestion(true), the workers alternate between them
 func window(tries, workers int) {
 	bad := "{ nope_unknown_field }"
 	good := "{ name }"
+	configs := []string{"one executor (disableSuggestion)", "executor A (disableSuggestion) gets the valid documents, executor B (suggestions on) the invalid ones", "two executors (both disableSuggestion)"}
 	accepted, poisoned := 0, 0
 	var panics, goodRejected int64
 	first, firstPanic := "", ""
 	var pmu sync.Mutex
 	for t := 0; t < tries; t++ {
 		resetRules()
-		ex := executor.New(es)
-		cache := graphql.MapCache[*ast.QueryDocument]{}
+		cfg := t % 3
 		var cmu sync.Mutex
-		ex.SetQueryCache(lockedCache{&cmu, cache})
-		ex.SetDisableSuggestion(true)
+		newEx := func(disable bool) (*executor.Executor, graphql.MapCache[*ast.QueryDocument]) {
+			ex := executor.New(es)
+			cache := graphql.MapCache[*ast.QueryDocument]{}
+			ex.SetQueryCache(lockedCache{&cmu, cache})
+			ex.SetDisableSuggestion(disable)
+			return ex, cache
+		}
+		exA, cacheA := newEx(true)
+		exB, cacheB := exA, cacheA
+		switch cfg {
+		case 1:
+			exB, cacheB = newEx(false)
+		case 2:
+			exB, cacheB = newEx(true)
+		}
 		var wg sync.WaitGroup
 		start := make(chan struct{})
 		var acc int64
@@ -1081,27 +1164,39 @@ func window(tries, workers int) {
 			wg.Add(1)
 			go func(w int) {
 				defer wg.Done()
-				q := good
+				q, ex, reps := good, exA, 1
 				if w%2 == 0 {
 					q = bad
+				}
+				switch cfg {
+				case 1:
+					if q == bad {
+						ex, reps = exB, 12 // a rejected document is never cached: every repetition validates
+					}
+				case 2:
+					if w%4 >= 2 {
+						ex = exB
+					}
 				}
 				defer func() {
 					if p := recover(); p != nil {
 						atomic.AddInt64(&panics, 1)
 						pmu.Lock()
 						if firstPanic == "" {
-							firstPanic = fmt.Sprintf("try %d: CreateOperationContext(`%s`) panicked: %v", t, q, p)
+							firstPanic = fmt.Sprintf("try %d [%s]: CreateOperationContext(`%s`) panicked: %v", t, configs[cfg], q, p)
 						}
 						pmu.Unlock()
 					}
 				}()
 				<-start
-				_, errs := ex.CreateOperationContext(graphql.StartOperationTrace(context.Background()), &graphql.RawParams{Query: q})
-				if q == bad && len(errs) == 0 {
-					atomic.AddInt64(&acc, 1)
-				}
-				if q == good && len(errs) != 0 {
-					atomic.AddInt64(&goodRejected, 1)
+				for i := 0; i < reps; i++ {
+					_, errs := ex.CreateOperationContext(graphql.StartOperationTrace(context.Background()), &graphql.RawParams{Query: q})
+					if q == bad && len(errs) == 0 {
+						atomic.AddInt64(&acc, 1)
+					}
+					if q == good && len(errs) != 0 {
+						atomic.AddInt64(&goodRejected, 1)
+					}
 				}
 			}(w)
 		}
@@ -1115,9 +1210,11 @@ func window(tries, workers int) {
 		if acc > 0 {
 			accepted++
 			if first == "" {
-				first = fmt.Sprintf("try %d: %d of %d concurrent first requests `%s` passed validation", t, acc, workers/2, bad)
+				first = fmt.Sprintf("try %d [%s]: %d concurrent first requests `%s` passed validation", t, configs[cfg], acc, bad)
 			}
-			if _, ok := cache[bad]; ok {
+			_, okA := cacheA[bad]
+			_, okB := cacheB[bad]
+			if okA || okB {
 				poisoned++
 			}
 		}
